@@ -6,6 +6,7 @@ import (
 	"go/parser"
 	"go/token"
 	"path/filepath"
+	"strconv"
 	"strings"
 )
 
@@ -26,9 +27,26 @@ import (
 // ---------------------------------------------------------------------------------------------
 
 type launchScan struct {
-	fset       *token.FileSet
-	acts       []string
-	notifyChan string
+	fset           *token.FileSet
+	acts           []string
+	notifyChan     string
+	notifySigs     []string          // signals given to signal.Notify, normalised; empty = all signals
+	finishedChan   string            // channel closed by the goroutine that waits for the daemon
+	chanCap        map[string]string // channel variable -> capacity expression of its make ("" = unbuffered)
+	hookAfterStart bool
+	sawStart       bool
+}
+
+// sigName normalises a signal expression: os.Interrupt and syscall.SIGINT are the same signal.
+func sigName(e ast.Expr) string {
+	n := callName(e)
+	if n == "os.Interrupt" || n == "syscall.SIGINT" || n == "unix.SIGINT" {
+		return "SIGINT"
+	}
+	if n == "os.Kill" || n == "syscall.SIGKILL" {
+		return "SIGKILL"
+	}
+	return n
 }
 
 func coqString(s string) string {
@@ -76,7 +94,7 @@ func callName(e ast.Expr) string {
 var launchIgnored = map[string]bool{
 	"make": true, "append": true, "len": true, "cap": true, "close": true, "new": true,
 	"exec.Command": true, "os.Environ": true, "os.Stderr.Write": true, "os.Stderr.WriteString": true,
-	"signal.Stop": true, "err.Error": true, "verifPause": true, "<conversion>": true,
+	"err.Error": true, "verifPause": true, "<conversion>": true,
 	"uint32": true, "uint64": true, "int": true, "int32": true, "int64": true, "uint": true, "string": true, "byte": true,
 	"strconv.Itoa": true, "os.Getpid": true,
 }
@@ -108,14 +126,39 @@ func (l *launchScan) calls(e ast.Node) {
 			name := callName(t.Fun)
 			switch {
 			case name == "signal.Notify":
-				l.acts = append(l.acts, "ANotify")
+				ch := ""
 				if len(t.Args) > 0 {
 					if id, ok := t.Args[0].(*ast.Ident); ok {
-						l.notifyChan = id.Name
+						ch = id.Name
+					}
+				}
+				l.notifyChan = ch
+				for _, a := range t.Args[min(1, len(t.Args)):] {
+					l.notifySigs = append(l.notifySigs, sigName(a))
+				}
+				// os/signal never blocks when it delivers: the channel needs room for the signal
+				capExpr, known := l.chanCap[ch]
+				switch {
+				case ch == "" || !known:
+					l.unknown(t, "signal.Notify on a channel that is not made in launch")
+				case capExpr == "" || capExpr == "0":
+					l.acts = append(l.acts, "ANotifyUnbuffered")
+				default:
+					if n, err := strconv.Atoi(capExpr); err == nil && n >= 1 {
+						l.acts = append(l.acts, "ANotify")
+					} else {
+						l.unknown(t, "capacity of the signal.Notify channel is not a literal >= 1: "+capExpr)
+					}
+				}
+			case name == "verifPause":
+				if l.sawStart && len(t.Args) == 1 {
+					if bl, ok := t.Args[0].(*ast.BasicLit); ok && bl.Value == `"launch.afterStart"` {
+						l.hookAfterStart = true
 					}
 				}
 			case strings.HasSuffix(name, ".Start") && len(t.Args) == 0 && strings.Count(name, ".") == 1:
 				l.acts = append(l.acts, "AStart")
+				l.sawStart = true
 			case mentionsStdout(t) && (name == "binary.Write" || strings.HasPrefix(name, "os.Stdout.Write") || strings.HasPrefix(name, "fmt.Fprint")):
 				l.acts = append(l.acts, "AWritePid")
 				return false
@@ -152,6 +195,27 @@ func (l *launchScan) stmt(s ast.Stmt, last, top bool) {
 	switch t := s.(type) {
 	case nil, *ast.EmptyStmt:
 	case *ast.AssignStmt:
+		if len(t.Lhs) == len(t.Rhs) {
+			for i, r := range t.Rhs {
+				id, isId := t.Lhs[i].(*ast.Ident)
+				ce, isCall := r.(*ast.CallExpr)
+				if !isId || !isCall {
+					continue
+				}
+				if fn, ok := ce.Fun.(*ast.Ident); ok && fn.Name == "make" && len(ce.Args) >= 1 {
+					if _, isChan := ce.Args[0].(*ast.ChanType); isChan {
+						c := ""
+						if len(ce.Args) >= 2 {
+							c = callName(ce.Args[1])
+							if bl, ok := ce.Args[1].(*ast.BasicLit); ok {
+								c = bl.Value
+							}
+						}
+						l.chanCap[id.Name] = c
+					}
+				}
+			}
+		}
 		for _, r := range t.Rhs {
 			l.calls(r)
 		}
@@ -180,16 +244,29 @@ func (l *launchScan) stmt(s ast.Stmt, last, top bool) {
 	case *ast.GoStmt:
 		if fl, ok := t.Call.Fun.(*ast.FuncLit); ok && containsWait(fl.Body) {
 			l.acts = append(l.acts, "ASpawnWait")
+			ast.Inspect(fl.Body, func(n ast.Node) bool {
+				if c, ok := n.(*ast.CallExpr); ok {
+					if fn, ok := c.Fun.(*ast.Ident); ok && fn.Name == "close" && len(c.Args) == 1 {
+						if id, ok := c.Args[0].(*ast.Ident); ok {
+							l.finishedChan = id.Name
+						}
+					}
+				}
+				return true
+			})
 			return
 		}
 		l.unknown(t, "go "+callName(t.Call.Fun))
 	case *ast.SelectStmt:
-		chans := map[string]bool{}
-		hasDefault := false
+		// every case must wait on the Notify channel or on the channel the waiting goroutine closes; anything
+		// else (a timer, a default case, a send) lets the launcher leave before Done()
+		chans := []string{}
+		bad := false
 		for _, cl := range t.Body.List {
 			cc := cl.(*ast.CommClause)
 			if cc.Comm == nil {
-				hasDefault = true
+				l.unknown(cc, "select case default (does not wait)")
+				bad = true
 				continue
 			}
 			var e ast.Expr
@@ -201,23 +278,27 @@ func (l *launchScan) stmt(s ast.Stmt, last, top bool) {
 					e = c.Rhs[0]
 				}
 			}
+			name := ""
 			if u, ok := e.(*ast.UnaryExpr); ok && u.Op == token.ARROW {
 				if id, ok := u.X.(*ast.Ident); ok {
-					chans[id.Name] = true
+					name = id.Name
+				} else {
+					l.unknown(cc, "select case <-"+callName(u.X))
+					bad = true
 				}
+			} else {
+				l.unknown(cc, "select case that is not a receive")
+				bad = true
+			}
+			if name != "" {
+				chans = append(chans, name)
 			}
 			for _, b := range cc.Body {
 				l.stmt(b, false, false)
 			}
 		}
-		switch {
-		case hasDefault:
-			l.unknown(t, "select with a default case does not wait")
-		case l.notifyChan == "" || !chans[l.notifyChan]:
-			// the channel may be registered later in the source (then ANotify follows): compare by name at the end
-			l.acts = append(l.acts, "ASelect?"+strings.Join(keys(chans), ","))
-		default:
-			l.acts = append(l.acts, "ASelect")
+		if !bad {
+			l.acts = append(l.acts, "ASelect?"+strings.Join(chans, ","))
 		}
 		if !top {
 			l.unknown(t, "select inside a branch")
@@ -257,28 +338,74 @@ func cmdLaunch(repo string) error {
 		fmt.Printf("[AUnknown %s]\n", coqString("func launch not found in daemon/daemon.go"))
 		return nil
 	}
-	l := &launchScan{fset: fset}
+	l := &launchScan{fset: fset, chanCap: map[string]string{}}
 	l.stmts(fd.Body.List, true)
-	// resolve selects seen before the Notify call was known
+	// resolve the selects: their channels must be the Notify channel and (optionally) the waiter's channel
 	for i, a := range l.acts {
 		if strings.HasPrefix(a, "ASelect?") {
-			ok := false
+			hasNotify, other := false, ""
 			for _, c := range strings.Split(a[len("ASelect?"):], ",") {
-				if c != "" && c == l.notifyChan {
-					ok = true
+				switch {
+				case c == "":
+				case c == l.notifyChan:
+					hasNotify = true
+				case c == l.finishedChan:
+				default:
+					other = c
 				}
 			}
-			if ok {
-				l.acts[i] = "ASelect"
-			} else {
+			switch {
+			case other != "":
+				l.acts[i] = "AUnknown " + coqString("select case <-"+other+": neither the signal.Notify channel nor the channel closed after cmd.Wait()")
+			case !hasNotify:
 				l.acts[i] = "AUnknown " + coqString("select does not receive from the channel given to signal.Notify")
+			default:
+				l.acts[i] = "ASelect"
 			}
+		}
+	}
+	// Done(): which signal, to whom
+	doneSig, donePpid := "", false
+	for _, d := range f.Decls {
+		if x, ok := d.(*ast.FuncDecl); ok && x.Recv == nil && x.Name.Name == "Done" && x.Body != nil {
+			ast.Inspect(x.Body, func(n ast.Node) bool {
+				if c, ok := n.(*ast.CallExpr); ok {
+					name := callName(c.Fun)
+					if strings.HasSuffix(name, ".Signal") && len(c.Args) == 1 {
+						doneSig = sigName(c.Args[0])
+					}
+					if (name == "syscall.Kill" || name == "unix.Kill") && len(c.Args) == 2 {
+						doneSig = sigName(c.Args[1])
+					}
+					if name == "os.Getppid" || name == "syscall.Getppid" {
+						donePpid = true
+					}
+				}
+				return true
+			})
+		}
+	}
+	switch {
+	case doneSig == "" || !donePpid:
+		l.acts = append(l.acts, "AUnknown "+coqString("func Done: no signal sent to os.Getppid() recognised"))
+	case doneSig != "SIGINT":
+		// the model's Done() sends SIGINT; any other catchable signal would need its own reading
+		l.acts = append(l.acts, "AUnknown "+coqString("func Done sends "+doneSig+", not SIGINT"))
+	default:
+		listens := len(l.notifySigs) == 0
+		for _, sg := range l.notifySigs {
+			if sg == doneSig {
+				listens = true
+			}
+		}
+		if !listens && l.notifyChan != "" {
+			l.acts = append(l.acts, "AUnknown "+coqString("signal.Notify listens for "+strings.Join(l.notifySigs, ",")+" but Done() sends "+doneSig))
 		}
 	}
 	for _, want := range []string{"ANotify", "AStart", "AWritePid", "ASpawnWait", "ASelect"} {
 		found := false
 		for _, a := range l.acts {
-			if a == want {
+			if a == want || (want == "ANotify" && a == "ANotifyUnbuffered") {
 				found = true
 			}
 		}
@@ -286,6 +413,11 @@ func cmdLaunch(repo string) error {
 			l.acts = append(l.acts, "AUnknown "+coqString("missing "+want))
 		}
 	}
+	hook := "MISSING"
+	if l.hookAfterStart {
+		hook = "present"
+	}
+	fmt.Printf("(* hook launch.afterStart: %s *)\n", hook)
 	fmt.Printf("[%s]\n", strings.Join(l.acts, "; "))
 	return nil
 }
